@@ -251,6 +251,20 @@ def main():
         geom = rp.get('geom', 'default')
         ok, out = build_harness(geom)
         if not ok: print(out); sys.exit(2)
+        if rp.get('kind') == 'schedule':
+            rf = os.path.join(WORK, 'replay_sched.txt')
+            os.makedirs(WORK, exist_ok=True)
+            with open(rf, 'w') as f:
+                f.write('\n'.join(rp['scenario']) + '\nschedule ' + ' '.join(str(t) for t in rp['schedule']) + '\n')
+            rc, out = sh([harness_bin(geom), 'conc', '--replay', rf, '--out', rf + '.out'], timeout=600)
+            try:
+                summ = json.loads(out.strip().splitlines()[-1])
+            except Exception:
+                print(out[-2000:]); sys.exit(2)
+            v = [x for x in summ.get('violations', []) if x['prop'] == prop]
+            kn = summ.get('known', [])
+            print(json.dumps({'violations': [{'prop': x['prop'], 'msg': x['msg']} for x in v], 'known': kn}, indent=1))
+            sys.exit(1 if v else 0)
         if rp.get('request_lines'):
             ans, summ = exec_lines(geom, rp['request_lines'])
             v = [x for x in summ.get('violations', []) if x['prop'] == prop]
@@ -275,6 +289,13 @@ def main():
                           'log': pr.get('log', '')[-3000:]}))
 
     runs = []
+    if spec.get('replay_bin'):
+        with Lock('cargo-replay'):
+            rc, out = sh(['cargo', 'build', '-p', 'llfree-eval', '--bin', 'replay', '--offline', '--quiet'], cwd=REPO,
+                         env={'CARGO_TARGET_DIR': os.path.join(HARN, 'target-replay')}, timeout=3000)
+        if rc != 0:
+            problems.append(('build', 'the replay binary does not build: ' + out[-800:],
+                             {'kind': 'correspondence', 'broken': 'cargo build -p llfree-eval --bin replay', 'log': out[-3000:]}))
     geoms = spec['geoms'][tier]
     built = {}
     for g in geoms:
@@ -294,6 +315,7 @@ def main():
     samples = []
     impl_viol = []
     mismatches = []
+    conc_stats = {}
     for g in geoms:
         if not built.get(g): continue
         # corpus first
@@ -333,15 +355,36 @@ def main():
                 mismatches.append((g, r['mismatch'], pre, ' '.join(run['args'])))
             for v in r['violations']:
                 if v['prop'] in spec['oracles']:
-                    pre = history_prefix(r['base'], summ, v['line'] - 1)
-                    impl_viol.append((g, v, pre, ' '.join(run['args'])))
+                    if 'schedule' in v:
+                        impl_viol.append((g, v, None, ' '.join(run['args'])))
+                    else:
+                        pre = history_prefix(r['base'], summ, v['line'] - 1)
+                        impl_viol.append((g, v, pre, ' '.join(run['args'])))
+            for kmsg in summ.get('known', []):
+                # findings the harness classifies itself (e.g. K1): must be listed for this property
+                impl_viol.append((g, {'prop': 'C03', 'line': 0, 'msg': kmsg, 'classified': True}, None, ' '.join(run['args'])))
+            for key in ('runs', 'events', 'crash_points', 'freeze_runs', 'max_solo_steps'):
+                if key in summ:
+                    conc_stats[key] = max(conc_stats.get(key, 0), summ[key]) if key == 'max_solo_steps' else conc_stats.get(key, 0) + summ[key]
 
     # implementation-vs-oracle failures: concrete failing inputs
     replay_path = None
     for (g, v, pre, src) in impl_viol:
-        k = is_known(prop, v['msg'], known)
+        k = is_known(v['prop'], v['msg'], known)
         if k:
-            known_hits.append((k, v)); continue
+            if v['prop'] == prop: known_hits.append((k, v))
+            continue
+        if v.get('classified') and v['prop'] != prop:
+            continue
+        if 'schedule' in v:
+            problems.append(('oracle', f"{v['prop']}: {v['msg']}",
+                             {'kind': 'schedule', 'geom': g, 'scenario': v['scenario'], 'schedule': v['schedule'],
+                              'violation': {'prop': v['prop'], 'msg': v['msg']}, 'source': src,
+                              'replay_cmd': f'python3 check.py {prop} --replay <this file>'}))
+            break
+        if pre is None:
+            problems.append(('oracle', f"{v['prop']}: {v['msg']}", {'kind': 'oracle', 'geom': g, 'violation': v, 'source': src}))
+            break
         def pred(lines, g=g, v=v):
             _, s = exec_lines(g, lines)
             return any(x['prop'] == v['prop'] for x in s.get('violations', []))
@@ -381,6 +424,7 @@ def main():
             'model_vs_impl_disagreements': len(mismatches), 'impl_vs_oracle_failures': len(impl_viol),
             'known_findings_hit': [k['id'] for k, _ in known_hits],
             'partial': spec.get('partial', ''),
+            'concurrent_exploration': conc_stats,
         },
         'assumptions': spec.get('assumptions', []),
         'wall_s': wall, 'violations': len(problems),
